@@ -616,8 +616,8 @@ def run_direct(stmts, acks, status=None, late_hs=False, settle=0.02, do_disconne
                         # the line that brings the host online is itself a report (added after seed C18h: e.g. an auto-report
                         # or "ok T:.. B:.." answering the probe); its readings count like any other's
                         boot_said.append(True)
-                        line = bytes(boot_reply)
-                        hub.released.append((line, {"k": "rel", "text": list(line), "hs": True}))
+                        for line in ([bytes(boot_reply)] if isinstance(boot_reply, (bytes, bytearray)) else [bytes(x) for x in boot_reply]):
+                            hub.released.append((line, {"k": "rel", "text": list(line), "hs": True}))
                         hub.cv.notify_all()
                     else:
                         hub.released.append((OK, {"k": "rel", "text": list(OK), "hs": True}))
